@@ -56,6 +56,7 @@ def call? : List Sx → Option Call
   | [.atom "alpha", al, st, fl] => do some (.setAlpha (← al.num?) (← st.bool?) (← optBool? fl))
   | [.atom "state", ca, cA, .atom kind] => do
     some (.setState { ca := ← optNum? ca, CA := ← optNum? cA, kind := kind })
+  | [.atom "softmask"] => some .softMaskState
   | [.atom "blend", .atom mode] => some (.setBlendMode mode)
   | [.atom "bm", .atom et, mcid, tag] => do some (.beginMarked et (← mcid.bool?) (← optStr? tag))
   | [.atom "em"] => some .endMarked
@@ -127,6 +128,14 @@ def apiStacks (calls : List WCall) : List (Nat × Option (List Fr)) :=
       (h, nxt) :: acc.filter (·.1 != h)
     | _ => acc) []
 
+/-- The calls made on each stream, in order (for the cache discipline `scopedOK`), per stream handle. -/
+def callsOf (calls : List WCall) : List (Nat × List Call) :=
+  calls.foldl (fun acc c =>
+    match c with
+    | .on h call => (h, (acc.lookup h).getD [] ++ [call]) :: acc.filter (·.1 != h)
+    | .setAlphaState h => (h, (acc.lookup h).getD [] ++ [Call.softMaskState]) :: acc.filter (·.1 != h)
+    | _ => acc) []
+
 def showFr : Fr → String | .q => "q" | .T => "T" | .M => "M"
 
 /-- The exception class only (the harness strips nothing). -/
@@ -162,6 +171,10 @@ def handle (cmd : String) (args : List Sx) : Option String :=
     let wb := if wbBad.isEmpty then "wb=ok" else
       "wb=bad:" ++ ",".intercalate (wbBad.reverse.map (fun e => toString e.1 ++ ":" ++
         (match e.2 with | none => "illegal" | some st => "open-" ++ String.join (st.map showFr))))
+    -- the raw setters that bypass the caches are followed by no set_color / set_alpha before the next pop_state
+    let csBad := (callsOf calls).filter (fun e => !scopedOK false e.2)
+    let wb := wb ++ (if csBad.isEmpty then " cs=ok" else
+      " cs=bad:" ++ ",".intercalate (csBad.reverse.map (fun e => toString e.1)))
     match (World.init mark 0).run calls with
     | .ok w =>
       -- the late pass of generate_pdf on the final state: `_use_references`
